@@ -1,4 +1,5 @@
 import functools
+import os
 from tempfile import SpooledTemporaryFile
 from typing import (
     Any,
@@ -38,6 +39,25 @@ class CachedStream(AsyncIterator[bytes]):
         if not chunk:
             raise StopAsyncIteration
         return chunk
+
+
+def read_zerocopysend(message: Message) -> bytes:
+    """
+    The bytes a `http.response.zerocopysend` message asks the server to send.
+    """
+    file = message["file"]
+    if message.get("offset") is not None:
+        os.lseek(file, message["offset"], os.SEEK_SET)
+    count = message.get("count")
+    chunks = []
+    while count is None or count > 0:
+        chunk = os.read(file, 4096 * 16 if count is None else min(count, 4096 * 16))
+        if not chunk:
+            break
+        chunks.append(chunk)
+        if count is not None:
+            count -= len(chunk)
+    return b"".join(chunks)
 
 
 class NextRequest(Request, MutableMapping[str, Any]):
@@ -100,6 +120,11 @@ class NextResponse(StreamingResponse):
                 )
             elif message["type"] == "http.response.body":
                 await body.push(message.get("body", b""))
+                if not message.get("more_body", False):
+                    await body.push_eof()
+            elif message["type"] == "http.response.zerocopysend":
+                # the server offers the extension and the inner application used it
+                await body.push(await run_in_threadpool(read_zerocopysend, message))
                 if not message.get("more_body", False):
                     await body.push_eof()
 
